@@ -340,7 +340,11 @@ sqf::runtime::runtime::result sqf::runtime::runtime::execute(sqf::runtime::runti
 #endif
                         {
                             m_context_active->unsuspend();
+#ifdef SQFVM_RUNTIME_VERIF
+                            res = execute_do(*this, sqf::runtime::verif::slice_len(150));
+#else
                             res = execute_do(*this, 150);
+#endif
                         }
                         else
                         {
@@ -349,7 +353,11 @@ sqf::runtime::runtime::result sqf::runtime::runtime::execute(sqf::runtime::runti
                     }
                     else
                     {
+#ifdef SQFVM_RUNTIME_VERIF
+                        res = execute_do(*this, sqf::runtime::verif::slice_len(150));
+#else
                         res = execute_do(*this, 150);
+#endif
                     }
                     if (m_is_exit_requested)
                     {
